@@ -11,7 +11,8 @@ import TddaVerif.Lemmas.TddaFile
 namespace TddaVerif.Props.C09
 open TddaVerif.Py TddaVerif.TddaFile
 
-/-- str() of a valid datetime is read back as that datetime — with or without fractional seconds -/
+/-- str() of a valid datetime is read back as that datetime — with or without fractional seconds, naive or with a
+    whole-minute UTC offset (as written for timezone-aware columns) -/
 theorem getDate_strDatetime (t : Civil) (h : t.valid = true) : getDate (strDatetime t) = .ok t :=
   Lemmas.getDate_strDatetime t h
 
@@ -64,8 +65,13 @@ theorem stripLines_lines (s : Line) :
   Lemmas.stripLines_lines s
 
 /- non-vacuity -/
-example : getDate (strDatetime ⟨1999, 12, 31, 23, 59, 59, 500000⟩) = .ok ⟨1999, 12, 31, 23, 59, 59, 500000⟩ := by decide
-example : strDatetime ⟨2020, 1, 2, 3, 4, 5, 0⟩ = "2020-01-02 03:04:05".toList := by decide
+example : getDate (strDatetime ⟨⟨1999, 12, 31, 23, 59, 59, 500000⟩, none⟩) = .ok ⟨⟨1999, 12, 31, 23, 59, 59, 500000⟩, none⟩ := by decide
+example : strDatetime ⟨⟨2020, 1, 2, 3, 4, 5, 0⟩, none⟩ = "2020-01-02 03:04:05".toList := by decide
+example : strDatetime ⟨⟨2020, 1, 2, 3, 4, 5, 0⟩, some (-210)⟩ = "2020-01-02 03:04:05-03:30".toList := by decide
+example : getDate "2020-01-02 03:04:05.250000-00:30".toList = .ok ⟨⟨2020, 1, 2, 3, 4, 5, 250000⟩, some (-30)⟩ := by decide
+example : getDate "2020-01-02 03:04:05+25:00".toList = .invalid := by decide
+example : getDate "2020-01-02+01:00".toList = .notDate := by decide
+example : (⟨⟨2020, 1, 2, 3, 4, 5, 0⟩, some (-210)⟩ : Civil).valid = true := by decide
 example : stripLines "a  \nb\t\n".toList = "a\nb\n".toList := by decide
 
 end TddaVerif.Props.C09
